@@ -16,7 +16,7 @@ ASSUME = ["the sidecar location comes from the live configuration (get_data_json
           "GetFromAll vs GetFromPaths is compared for searches without '>'"]
 BUDGET = {"quick": (96, 30), "thorough": (6400, 40)}
 NSHARDS = 16
-KEYS = ["comment", "frames", "author"]
+KEYS = ["comment", "frames", "author", "last.user"]       # (an attribute name is free text: dots, and words the library uses elsewhere)
 
 
 def shard_args(tier, seed):
@@ -165,6 +165,13 @@ def check_get(rec, lab, conf, store, c, s, attributes, encname, case):
             for k in KEYS + ["sid"]:
                 if g.get_attr(x, k) != full.get(k):
                     rec.violation("get_attr_differs", dict(cs, sid=str(x), key=k), "%r vs %r" % (g.get_attr(x, k), full.get(k)))
+            if c == lab.default_config and conf.get_getter_for(x) is not None:
+                # get_attr of GetFromAll / of the Sid itself: "one value of the record", whatever the attribute is called
+                for k in KEYS:
+                    for who, va in (("GetFromAll.get_attr", GetFromAll().get_attr(x, k)), ("Sid.get_attr", x.get_attr(k))):
+                        rec.count("get_attr_through_GetFromAll")
+                        if va != full.get(k):
+                            rec.violation("get_attr_differs", dict(cs, sid=str(x), key=k, call=who), "%r vs %r" % (va, full.get(k)))
     except Exception as e:
         rec.violation("single_call_raised", cs, repr(e))
     # GetFromAll (default path configuration; any configuration when the data configuration dispatches on it)
